@@ -90,6 +90,7 @@ def run(ctx):
     _filter_validation(ctx)
     from . import callsigs as _cs
     _cs.general_rules(ctx, 'R18', ['writer.write', 'writer.overwrite', 'writer.write_simple', 'writer.write_multi', 'writer.partition_on_columns', 'writer.make_part_file', 'writer.make_row_group', 'api.ParquetFile.write_row_groups', 'api.ParquetFile.remove_row_groups', 'api.ParquetFile.to_pandas', 'writer.write_common_metadata', 'writer.consolidate_categories'])
+    ar.open_close_pairing_rule(ctx, 'R18.4')
 
 
 def _filter_validation(ctx):
